@@ -1,6 +1,7 @@
 package main
 
 import (
+	"os"
 	"bytes"
 	"errors"
 	"fmt"
@@ -69,6 +70,25 @@ var paramMutations = []func(r *Rng, s string) string{
 	func(r *Rng, s string) string { return strings.Replace(s, "quoted-printable", "base64", 1) },
 	func(r *Rng, s string) string { return strings.Replace(s, "attachment", "inline", 1) },
 	func(r *Rng, s string) string { return strings.Replace(s, "attachment", "unknown-disposition", 1) },
+}
+
+// parseEMLAny parses through one of the three entry points (string, reader, file), chosen by k
+func parseEMLAny(k int, input []byte) (*mail.Msg, error) {
+	switch k % 3 {
+	case 1:
+		return mail.EMLToMsgFromReader(bytes.NewReader(input))
+	case 2:
+		f, err := os.CreateTemp("", "gmverif-in-*.eml")
+		if err != nil {
+			return mail.EMLToMsgFromString(string(input))
+		}
+		name := f.Name()
+		defer os.Remove(name)
+		_, _ = f.Write(input)
+		_ = f.Close()
+		return mail.EMLToMsgFromFile(name)
+	}
+	return mail.EMLToMsgFromString(string(input))
 }
 
 // mutateEML applies structure-aware mutations to a valid rendering
@@ -154,7 +174,7 @@ func init() {
 						return mail.EMLToMsgFromReader(&failingReader{data: input, fail: fail})
 					})
 				} else {
-					m, _, pan, to = parseGuarded(func() (*mail.Msg, error) { return mail.EMLToMsgFromString(string(input)) })
+					m, _, pan, to = parseGuarded(func() (*mail.Msg, error) { return parseEMLAny(len(input), input) })
 				}
 				_ = m
 				c.rep.OracleChecked++
@@ -262,7 +282,7 @@ func roundtripCase(c *Ctx) {
 	c.Count(len(spc.Parts)+len(spc.Files) > 1, first.String(), spc.shape())
 	c.Sample(spc)
 	c.rep.OracleChecked++
-	parsed, perr, pan, to := parseGuarded(func() (*mail.Msg, error) { return mail.EMLToMsgFromString(first.String()) })
+	parsed, perr, pan, to := parseGuarded(func() (*mail.Msg, error) { return parseEMLAny(first.Len(), first.Bytes()) })
 	if pan != nil || to {
 		c.Violate("c09-panic", fmt.Sprintf("parsing a rendering panicked / hung: %v", pan), spc)
 		return
